@@ -1053,7 +1053,11 @@ class Analyzer:
             elif rty == "usize" and T[1]:
                 x, cx = T[1]
                 ok = self.prove(st, x, cx, L, 0, -1)
-                out.append(Obligation(fn, bb, t, "index", "index usize", ok, "i < len" if ok else self.explain(st, x, L)))
+                o = Obligation(fn, bb, t, "index", "index usize", ok, "i < len" if ok else self.explain(st, x, L))
+                if name_is("index_mut"):
+                    # kept for rules that ask about the value stored through the returned reference
+                    o.state, o.index_term = st.copy(), T[1]
+                out.append(o)
             else:
                 out.append(Obligation(fn, bb, t, "index", what, False, "unsupported index type %s" % rty))
         elif name_is("<impl [T]>::split_at", "<impl [T]>::split_at_mut") and nargs == 2 and A[0] and T[1]:
